@@ -597,6 +597,12 @@ package jsonpatch
 // state of the pooled scanner, and memory they allocate - in particular no element of a byte slice and no map,
 // slice or raw message of a Patch that existed before the call (frame obligations, class F).
 //@ func (Patch).ApplyIndentWithOptions
+//@   callsite[C01,C08] add#1 add-operations-are-applied-by-add-in-patch-order: opKind(op) == "add" && arg_op == op && op == p[rangeindex + 1]
+//@   callsite[C01,C08] remove#1 remove-operations-are-applied-by-remove-in-patch-order: opKind(op) == "remove" && arg_op == op && op == p[rangeindex + 1]
+//@   callsite[C01,C08] replace#1 replace-operations-are-applied-by-replace-in-patch-order: opKind(op) == "replace" && arg_op == op && op == p[rangeindex + 1]
+//@   callsite[C01,C08] move#1 move-operations-are-applied-by-move-in-patch-order: opKind(op) == "move" && arg_op == op && op == p[rangeindex + 1]
+//@   callsite[C01,C08] test#1 test-operations-are-applied-by-test-in-patch-order: opKind(op) == "test" && arg_op == op && op == p[rangeindex + 1]
+//@   callsite[C01,C08] copy#1 copy-operations-are-applied-by-copy-in-patch-order: opKind(op) == "copy" && arg_op == op && op == p[rangeindex + 1]
 //@   modifies region(lazyNode.which), region(lazyNode.doc), region(lazyNode.ary), region(lazyNode.raw), region(partialDoc.obj), region(partialDoc.keys), region(partialDoc.opts), region(partialDoc.self), region(partialArray.nodes), region(partialArray.self), region(elem string), region(elem *lazyNode), region(map map[string]*lazyNode), region(cell int64), region(cell container), region(cell any), region(json.scanner.step), region(json.scanner.err), region(json.scanner.endTop), region(json.scanner.bytes), region(json.scanner.parseState), region(elem int), ghost(BufContent)
 //@   requires options: options != nil
 //@   requires patch: patchOK(p) && (forall j int {p[j]} :: 0 <= j && j < len(p) ==> validOp(p[j]))
